@@ -46,7 +46,7 @@ fn oracle(ib: u32, kp: u64, p: usize, page: &[u64; 64], base: Option<usize>, fas
 	None
 }
 
-pub fn run(seeds: &[u64], t: &mut Trace, ctr: &mut Counters, prop: &str) -> u64 {
+pub fn run(seeds: &[u64], _thorough: bool, _root: &std::path::Path, t: &mut Trace, ctr: &mut Counters, prop: &str) -> u64 {
 	let mut fails = 0;
 	for cs in seeds.iter().copied() {
 		let mut rng = Rng::new(cs);
